@@ -514,6 +514,7 @@ type ProbeReport struct {
 	Err      string `json:"err,omitempty"`
 	Panic    string `json:"panic,omitempty"`
 	Kind     string `json:"kind,omitempty"`
+	Kind2    string `json:"kind2,omitempty"`
 	Frame1   string `json:"frame1,omitempty"`
 	Frame2   string `json:"frame2,omitempty"`
 	Steps    int64  `json:"steps"`
@@ -584,9 +585,9 @@ func probeMain(path string) {
 			rep.Outcome = "late"
 		default:
 		}
-		_, f2, _ := classifyStacks()
+		k2, f2, _ := classifyStacks()
 		rep.Events2 = atomic.LoadInt64(&events)
-		rep.Kind, rep.Frame1, rep.Frame2, rep.Stack = k1, f1, f2, trimStack(st)
+		rep.Kind, rep.Kind2, rep.Frame1, rep.Frame2, rep.Stack = k1, k2, f1, f2, trimStack(st)
 	}
 	rep.Steps = atomic.LoadInt64(&steps)
 	rep.WaitedMs = time.Since(start).Milliseconds()
